@@ -14,7 +14,7 @@ REPO = os.environ.get("VERIF_REPO", "/repo")
 BUILD = os.path.join(VERIF, "build")
 SCRATCH = "/var/tmp/vx-replay-src"
 
-BOUNDED = ("C01", "C02", "C03", "C04", "C07", "C10", "C12", "C13", "C18", "C19", "C20")
+BOUNDED = ("C01", "C02", "C03", "C04", "C06", "C07", "C08", "C09", "C10", "C12", "C13", "C15", "C16", "C17", "C18", "C19", "C20")
 
 BOUND_TEXT = ("seeded random registration sequences built through the public DispatcherBuilder API of a scratch copy of /repo's working tree "
               "(three read-only shape probes appended): <= 60 top-level registrations, <= 12 resource ids over 4 types, dependency lists <= 4 names, "
@@ -50,6 +50,13 @@ def build():
                 with open(tgt, "a") as o:
                     o.write(open(os.path.join(VERIF, "replay", "probe", f + ".rs.append")).read())
             subprocess.run(["rsync", "-a", "--exclude", "target", os.path.join(VERIF, "replay") + "/", SCRATCH + "/harness/"], check=True)
+            # cargo decides freshness of path dependencies by mtime: a copy whose files are OLDER than the last build (a reverted
+            # change, a checkout) would silently reuse stale artefacts -> give every copied source file the current time
+            now = time.time()
+            for d, _, fs in os.walk(SCRATCH):
+                for f in fs:
+                    if f.endswith(".rs") or f.endswith(".toml"):
+                        os.utime(os.path.join(d, f), (now, now))
             if os.path.exists(os.path.join(REPO, "Cargo.lock")):
                 shutil.copy(os.path.join(REPO, "Cargo.lock"), os.path.join(SCRATCH, "harness", "Cargo.lock"))
             env = dict(os.environ, CARGO_TARGET_DIR=os.path.join(BUILD, "replay-target"), CARGO_NET_OFFLINE="true")
